@@ -12,4 +12,7 @@ async def device():
         dev = tcpdev.FakeDevice()
         await dev.start()
         ent = _ENV["dev"] = (os.getpid(), dev)
-    return ent[1]
+    dev = ent[1]
+    if len(dev.conns) > 400:        # called at the start of a case: forget connections that ended long ago
+        dev.conns = [c for c in dev.conns if not c.client_eof]
+    return dev
